@@ -187,6 +187,9 @@ func (regManager *RegistrationManager) ValidateRegistration(reg *DecoyRegistrati
 		return false, errIncompleteReg
 	} else if reg.Keys == nil {
 		return false, errIncompleteReg
+	} else if len(reg.Keys.SharedSecret) == 0 {
+		// Without a shared secret every transport identifier is computable by anyone.
+		return false, errIncompleteReg
 	} else if reg.PhantomIp == nil {
 		return false, errIncompleteReg
 	} else if reg.RegistrationSource == nil {
